@@ -45,6 +45,10 @@ pub enum Block {
     SetVector { vector: u8, handler: usize, top: u8 },
     /// MOV.L #value,ER5
     LoadEr5(u32),
+    /// a byte store through a register-based addressing mode: 1 = @ER6, 2 = @(d:16,ER6), 3 = @-ER6 (ER6 and R0L are clobbered)
+    StoreVia { addr: u32, val: u8, mode: u8, disp: i16 },
+    /// MOV.W #val,R0 ; MOV.W R0,@addr:24 (two byte writes: high at addr, low at addr+1)
+    StoreW { addr: u32, val: u16 },
 }
 
 #[derive(Clone, Debug, Serialize, Deserialize, PartialEq)]
@@ -89,7 +93,8 @@ pub struct GuestSpec {
     #[serde(default)]
     pub stack_off: u16,
     /// how the exit address is reached: 0 = JMP @aa:24, 1 = falling through, 2 = BRA, 3 = JMP @ER0 (ER0 is the exit
-    /// code and therefore the exit address in that case), 4 = BSR (pushes a return address first)
+    /// code and therefore the exit address in that case), 4 = BSR (pushes a return address first), 5-7 = JMP to an exit
+    /// address in the vector area / at the end of DRAM / at the end of on-chip RAM
     #[serde(default)]
     pub exit_style: u8,
 }
@@ -395,6 +400,29 @@ impl GuestSpec {
                     a.pop_l(0);
                 }
                 Block::LoadEr5(v) => a.mov_l_imm(5, *v),
+                Block::StoreVia { addr, val, mode, disp } => {
+                    a.mov_b_imm(R0L, *val);
+                    match mode {
+                        2 => {
+                            a.mov_l_imm(6, addr.wrapping_sub(*disp as i32 as u32) & 0x00ff_ffff);
+                            a.w(0x6ee8);
+                            a.w(*disp as u16);
+                        }
+                        3 => {
+                            a.mov_l_imm(6, addr.wrapping_add(1));
+                            a.w(0x6ce8);
+                        }
+                        _ => {
+                            a.mov_l_imm(6, *addr);
+                            a.w(0x68e8);
+                        }
+                    }
+                }
+                Block::StoreW { addr, val } => {
+                    a.mov_w_imm(0, *val);
+                    a.w(0x6ba0);
+                    a.l(*addr & 0x00ff_ffff);
+                }
                 Block::Tick => {
                     a.push_l(0);
                     a.mov_l_from_abs24(0, progress);
@@ -422,6 +450,16 @@ impl GuestSpec {
                 let e = a.here() + 8;
                 a.mov_l_imm(0, e);
                 a.jmp_ern(0);
+                e
+            }
+            5 | 6 | 7 => {
+                // the exit address lies in another memory region (nothing there is ever executed)
+                let e = match self.exit_style {
+                    5 => 0x000040,
+                    6 => 0x5ffffe,
+                    _ => 0xffff1e,
+                };
+                a.jmp_abs(e);
                 e
             }
             _ => {
